@@ -336,7 +336,14 @@ func cacheFreshRound(r *rng.R, K int, register bool, round int) string {
 					runtime.Gosched()
 				}
 			}
-			switch mode := (g + round) % 5; {
+			mode := (g + round) % 5
+			if round%3 == 1 {
+				// every third round everybody DECODES: the decode plan (a cache of its own) is then built under
+				// contention whatever K is, and two decoders of one type run at once (with the modes spread over
+				// the goroutines, K < 6 gives at most one decoder per round)
+				mode = 1
+			}
+			switch {
 			case mode == 0 || (mode == 4 && nd == nil):
 				b, p := freshEncode("ttlv", freshTopTag, val.Elem().Interface())
 				if p != "" {
